@@ -19,7 +19,7 @@ import (
 // SrvCfg is an upgrader configuration (each dimension: variant 0 = nil / not configured).
 var SrvFields = []Field{
 	{"proto", []string{"nil", "all", "b", "none", "custom-all", "custom-b"}},
-	{"ext", []string{"nil", "all", "none", "custom-all", "negotiate-echo", "negotiate-decline", "negotiate-error", "negotiate-pmd"}},
+	{"ext", []string{"nil", "all", "none", "custom-all", "negotiate-echo", "negotiate-decline", "negotiate-error", "negotiate-pmd", "negotiate-error-x", "negotiate-error-y"}},
 	{"header", []string{"nil", "one"}},
 	{"onrequest", []string{"nil", "ok", "err", "reject403"}},
 	{"onhost", []string{"nil", "ok", "err", "reject403"}},
@@ -120,6 +120,8 @@ func (c SrvCfg) Upgrader() ws.Upgrader {
 	case "negotiate-pmd":
 		e := &wsflate.Extension{Parameters: wsflate.Parameters{ServerNoContextTakeover: true}}
 		u.Negotiate = e.Negotiate
+	case "negotiate-error-x", "negotiate-error-y":
+		u.Negotiate = selectiveNegotiate(c.V("ext"))
 	}
 	if c.V("header") == "one" {
 		u.Header = ws.HandshakeHeaderString("X-Server: verif\r\n")
@@ -174,6 +176,8 @@ func (c SrvCfg) HTTPUpgrader() (u ws.HTTPUpgrader, ok bool) {
 	case "negotiate-pmd":
 		e := &wsflate.Extension{Parameters: wsflate.Parameters{ServerNoContextTakeover: true}}
 		u.Negotiate = e.Negotiate
+	case "negotiate-error-x", "negotiate-error-y":
+		u.Negotiate = selectiveNegotiate(c.V("ext"))
 	default:
 		return u, false
 	}
@@ -181,6 +185,17 @@ func (c SrvCfg) HTTPUpgrader() (u ws.HTTPUpgrader, ok bool) {
 		u.Header = http.Header{"X-Server": []string{"verif"}}
 	}
 	return u, true
+}
+
+// selectiveNegotiate objects to one extension name and echoes every other offer.
+func selectiveNegotiate(kind string) func(httphead.Option) (httphead.Option, error) {
+	bad := kind[len(kind)-1:]
+	return func(o httphead.Option) (httphead.Option, error) {
+		if string(o.Name) == bad {
+			return httphead.Option{}, ErrCallback
+		}
+		return o.Clone(), nil
+	}
 }
 
 // Expectation of the configuration for a request the built-in checks accept.
@@ -230,6 +245,20 @@ func (c SrvCfg) Expect(r Req) SrvExpect {
 		}
 	}
 	off := r.OfferedExtensions()
+	if k := c.V("ext"); k == "negotiate-error-x" || k == "negotiate-error-y" {
+		for _, n := range off {
+			if n == k[len(k)-1:] {
+				e.CallbackStatuses[500] = true
+			}
+		}
+		if r.V("extensions") == "malformed" {
+			e.CallbackStatuses[500] = true
+			e.CallbackStatuses[400] = true
+		}
+		if len(e.CallbackStatuses) == 0 {
+			e.ExtNames = off
+		}
+	}
 	switch c.V("ext") {
 	case "all", "custom-all", "negotiate-echo":
 		e.ExtNames = off
